@@ -23,7 +23,7 @@ RULE = (
     "row, the passing combinations in row-major order; the state indexer has the shape of the restricted-state "
     "product, holds the rank among combinations with >=1 passing choice and -1 elsewhere; segment_ids[j] = rank of "
     "the state part of row j, num_segments = number of ranked states; unrestricted discrete variables and continuous "
-    "states are stored as their full grids (compared as a set: the statement fixes no order for them); axis names follow the layout contract. Non-trivial: "
+    "states are stored as their full grids (compared as a set: the statement fixes no order for them); in ~7 % of the cases an additional filter over the period ONLY opens or closes the whole space per period (closed: no stored combination, indexer all -1, no segment); axis names follow the layout contract. Non-trivial: "
     ">=1 restricted choice and some restricted-state combination fully excluded and some only partially; distinct by "
     "case digest."
 )
@@ -39,7 +39,11 @@ PROFILE = Profile(name="space", p_filter=1.0, filter_modes=("keep_all", "drop", 
 def cases(draw):
     spec = draw(model_specs(PROFILE))
     return {"spec": spec.to_json(), "period": draw(st.integers(0, spec.n_periods - 1)),
-            "jit_filter": draw(st.booleans())}
+            "jit_filter": draw(st.booleans()),
+            # 1 case in 5: an additional filter that depends on the period ONLY (the whole space is
+            # open in some periods and closed in others)
+            "period_only_filter": ([bool(b >> i & 1) for b in [draw(st.integers(1, 14))] for i in range(4)]
+                                   if draw(st.integers(0, 999)) >= 600 else None)}
 
 
 def strategy(tier):
@@ -52,6 +56,10 @@ def check(case):
 
     spec = Spec.from_json(case["spec"])
     dg = case_digest(case)
+    if case.get("period_only_filter"):
+        spec.consts["TABOPEN"] = np.asarray(case["period_only_filter"][: spec.n_periods], dtype=bool)
+        spec.functions["open_filter"] = {"args": ["_period"], "body": "TABOPEN[_period]"}
+        spec.params["open_filter"] = {}
     ref = Reference(spec)
     t = case["period"]
     T = spec.n_periods
@@ -118,6 +126,8 @@ def check(case):
         cl.append("period_dependent_filter")
     if t == T - 1:
         cl.append("last_period")
+    if case.get("period_only_filter"):
+        cl.append("period_only_filter_" + ("open" if case["period_only_filter"][t] else "closed"))
     partial = mask.reshape(int(np.prod(keep.shape)), -1)
     some_partial = bool((partial.any(axis=1) & ~partial.all(axis=1)).any())
     out = Outcome(digest=dg, classes=cl, nontrivial=bool(sp_choices) and bool((~keep).any()) and some_partial)
